@@ -111,9 +111,12 @@ impl RegexMatcher {
 }
 
 impl Matcher for RegexMatcher {
-    fn matches(&self, file_info: &WalkEntry, _: &mut MatcherIO) -> bool {
-        self.regex
-            .is_match(file_info.path().to_string_lossy().as_ref())
+    fn matches(&self, file_info: &WalkEntry, matcher_io: &mut MatcherIO) -> bool {
+        super::glob::is_match_or_report(
+            &self.regex,
+            file_info.path().to_string_lossy().as_ref(),
+            matcher_io,
+        )
     }
 }
 
